@@ -34,7 +34,7 @@ RTOP = ['README.txt', 'arraydescription.json', 'indices', 'metadata.json', 'valu
 def gen(ctx):
     r = ctx.rng
     D, C = [], []
-    kinds = [dict(kind='file', name='keep.dat'), dict(kind='dir', name='nested'),
+    kinds = [dict(kind='file', name='keep.dat'), dict(kind='file', name='.hidden'), dict(kind='dir', name='nested'),
              dict(kind='linkfile', name='lf', target='$OUT/ofile'), dict(kind='linkdir', name='ld', target='$OUT/odir'),
              dict(kind='collision', name='metadata.json'), dict(kind='linkfile', name='dangling', target='$OUT/nothing')]
     for target, func in (('Array', 'delete_array'), ('RaggedArray', 'delete_raggedarray')):
@@ -49,6 +49,16 @@ def gen(ctx):
                                   mode='r+'))
         D.append(dict(target=target, func=func, form='object', foreign=[], mode='r'))
         D.append(dict(target=target, func=func, form='object', foreign=[dict(kinds[0], where='')], mode='r'))
+    if not ctx.quick:
+        # several foreign entries at once, in several places
+        for target, func in (('Array', 'delete_array'), ('RaggedArray', 'delete_raggedarray')):
+            wheres = [''] if target == 'Array' else ['', 'values', 'indices']
+            for _ in range(60):
+                fs_ = []
+                for fk in r.sample([k for k in kinds if k['kind'] != 'collision'], r.randint(2, 3)):
+                    fs_.append(dict(fk, where=r.choice(wheres), name=fk['name'] + str(len(fs_))))
+                D.append(dict(target=target, func=func, form=r.choice(['object', 'str', 'path']), foreign=fs_,
+                              meta=r.random() < 0.5, mode='r+'))
     # wrong kind / not an array
     for target in ('Array', 'RaggedArray', 'plaindir', 'file', 'missing'):
         for func in ('delete_array', 'delete_raggedarray'):
